@@ -177,6 +177,24 @@ def run(ctx):
                   seen.append(rec)
             ctx.count("kbest_streams_checked")
             ctx.count("kbest_matches_yielded", len(seen))
+            # completeness of the first answer: it is the best end point among those whose segment respects the limits
+            if overlap == 0 and (k is None or k >= 1):
+                with monitors.quiet():
+                    fr = SubsequenceAlignment(qa, sa_, penalty=penalty, use_c=use_c)
+                    fr.align()
+                    adm = []
+                    for e_ in range(c):
+                        sg = [int(x) for x in fr.get_match(e_).segment]
+                        ln_ = sg[1] - sg[0] + 1
+                        if (minlength is None or ln_ >= minlength) and (maxlength is None or ln_ <= maxlength) and ref[e_] != inf:
+                            adm.append(ref[e_])
+                ctx.count("kbest_first_match_completeness_checks")
+                if adm and not seen:
+                    ctx.violation("kbest-stream", reason="no match yielded although %d end points have an admissible segment" % len(adm),
+                                  use_c=use_c, args=args, **wit)
+                elif adm and not oracle.close(seen[0]["value"], min(adm)):
+                    ctx.violation("kbest-stream", reason="first match is not the best admissible end point: %r instead of %r"
+                                  % (seen[0]["value"], min(adm)), use_c=use_c, args=args, match=seen[0], **wit)
             if len(ctx.samples) < 2 and len(seen) >= 2:
                 ctx.sample(dict(query=q, series=s, penalty=penalty, args=args, matches=seen))
         except monitors.StepLimit as ex:
@@ -203,7 +221,8 @@ def run(ctx):
                     badi = ("best_matches", "not a prefix of the unbounded k-best stream", rf)
                 elif rf and any(v > rf[0][2] * fac * (1 + 1e-12) + 1e-15 for _, _, v in rf):
                     badi = ("best_matches", "a match exceeds max_rangefactor times the first value", rf)
-                elif len(rf) < len(full) and rf and full[len(rf)][2] <= rf[0][2] * fac * (1 - 1e-12) - 1e-15:
+                elif len(rf) < len(full) and rf and (full[len(rf)][2] <= rf[0][2] * fac * (1 - 1e-12) - 1e-15 or
+                                                     (fac == 1.0 and full[len(rf)][2] == rf[0][2])):
                     badi = ("best_matches", "stopped although the next match is within max_rangefactor times the first value", rf)
                 elif full and not rf:
                     badi = ("best_matches", "no match although the k-best stream has one", rf)
